@@ -136,10 +136,8 @@ theorem callO_inv (s s' : St) (pc : OPc) (hpc : (∃ e, pc = .pu0 e) ∨ pc = .p
   split at hs
   · rename_i heq
     simp at hs; subst hs
-    cases h
-    simp only [heq, ownerLocked, carry, resetting, ownerFlight] at *
     rcases hpc with ⟨e, rfl⟩ | rfl | rfl | ⟨e, rfl⟩
-    all_goals tso_finish
+    all_goals tso_fastO h heq [carryC]
   · simp at hs
 
 set_option maxHeartbeats 4000000 in
@@ -149,10 +147,8 @@ theorem callT_inv (s s' : St) (p : Pid) (pc : TPc) (hpc : pc = .tq0 ∨ pc = .kq
   split at hs
   · rename_i heq
     simp at hs; subst hs
-    cases h
-    simp only [ownerLocked, carry, resetting, ownerFlight] at *
     rcases hpc with rfl | rfl | rfl | rfl | ⟨e, rfl⟩
-    all_goals tso_finish
+    all_goals tso_fastT h p []
   · simp at hs
 
 /-- a drain from the buffer of a thief / passer -/
